@@ -104,7 +104,7 @@ func check(pr program) verdict {
 		reached := false
 		exp := ir.Run(pr.stmts, ir.Config{
 			TrySignalsCaught: r.trySignalsCaught, FinallyOnCatchExit: r.finallyOnCatchExit, FinallyOnTrySignal: r.finallyOnTrySignal,
-			MapOrder: irrun.FollowMapOrder(obs), OnSignal: func(int) { reached = true }})
+			MapOrder: irrun.FollowMapOrder(obs), OnSignal: func(int) { reached = true }, StraySignalIsError: true})
 		used |= exp.Used
 		if v.exp == nil {
 			v.exp = exp
@@ -280,6 +280,9 @@ func specsFor(ws []int, maxDefers int, panicking bool) []Spec {
 			specs = append(specs, base)
 			for f := failThrow; f < numFail; f++ {
 				if f == failCloseClosed && !failingDeferred(ds) {
+					continue
+				}
+				if (f == failStrayBreak || f == failStrayContinue) && !hasLoop(ws) {
 					continue
 				}
 				for lvl := 0; lvl <= depth; lvl++ {
